@@ -112,7 +112,9 @@ def handle (key : String) (ins obs : List String) : Verdict :=
         | none => [some "unparsable-accepted-value"] else []))
     { agree := model == " ".intercalate obs, model, fail,
       nontrivial := kind == "ok" && bdd.length > 14,
-      tags := ["text", kind, v] ++ (if normal then ["normal"] else []) ++ (if asText.isNone then ["invalid-utf8"] else []) }
+      tags := ["text", kind, v] ++ (if normal then ["normal"] else []) ++ (if asText.isNone then ["invalid-utf8"] else []) ++
+        (if bytes.length > 24 then ["len>24"] else []) ++
+        (if asText.isSome && bytes.any (fun b => b.toNat ≥ 0x80) then ["multibyte-utf8"] else []) }
   | "C13.bytes", [data], [kind, bdd, v, evals, count, and] =>
     let bytes := unhex data
     let mo := readBytes bytes
